@@ -640,7 +640,8 @@ def _split_ifexp_calls(stmts):
         for hnd in getattr(s, "handlers", []) or []:
             hnd.body = _split_ifexp_calls(hnd.body)
         if isinstance(s, ast.Expr) and isinstance(s.value, ast.Call) and len(s.value.args) == 1 and not s.value.keywords \
-                and isinstance(s.value.args[0], ast.IfExp) and _pure_arg(s.value.func):
+                and isinstance(s.value.args[0], ast.IfExp) and _pure_arg(s.value.func) \
+                and isinstance(s.value.args[0].body, ast.Call) and isinstance(s.value.args[0].orelse, ast.Call):
             c, ie = s.value, s.value.args[0]
             a = ast.copy_location(ast.Expr(value=ast.copy_location(ast.Call(func=_clone(c.func), args=[ie.body], keywords=[]), c)), s)
             b = ast.copy_location(ast.Expr(value=ast.copy_location(ast.Call(func=_clone(c.func), args=[ie.orelse], keywords=[]), c)), s)
